@@ -57,7 +57,10 @@ func main() {
 	}
 	switch os.Args[1] {
 	case "check":
-		os.Exit(cmdCheck(os.Args[2:]))
+		stop := startProfile()
+		rc := cmdCheck(os.Args[2:])
+		stop()
+		os.Exit(rc)
 	case "replay":
 		os.Exit(cmdReplay(os.Args[2:]))
 	case "list":
@@ -332,7 +335,7 @@ func cmdCheck(args []string) int {
 	var groups []*grp
 	for i := range prop.Harnesses {
 		h := &prop.Harnesses[i]
-		if *only != "" && h.Name != *only {
+		if *only != "" && !strings.Contains(","+*only+",", ","+h.Name+",") { // --only a,b,c
 			continue
 		}
 		if h.ThoroughOnly && tier == 0 {
